@@ -1,6 +1,9 @@
 import PocketModel.Basic.Proto
 import PocketModel.Codec.Wire
 import PocketModel.Codec.WireText
+import PocketModel.Codec.Json
+import PocketModel.Codec.BigText
+import PocketModel.Codec.TxSchema
 /-! Driver for C38: schemas arrive as data lines (regenerated from /repo/proto by the harness), then
 round-trip lines of the real codecs are judged: model encoder vs real bytes, model decoder vs real
 decoded value (DIFF), and the executable specification `decoded = normalize original` on the
@@ -9,6 +12,8 @@ open Wire
 
 structure St where
   reg : Reg := []
+  /-- `Any` type URL → schema name (the interface registry, emitted by the harness) -/
+  urls : List (Bytes × String) := []
 
 def lookupSchema (st : St) (n : String) : Option Schema := st.reg.lookup n
 
@@ -124,17 +129,134 @@ def stepRt (st : St) (pre post : List String) : Verdict :=
           | _, _ => .bad "proto fields"
   | _, _ => .bad "rt arity"
 
+/-- Sign-bytes lines (`harness/cmd/c38/sign.go`). -/
+def stepSign (pre post : List String) : Verdict :=
+  let sig := "signbytes-order-dependent"
+  match pre, post with
+  | ["sortjson", doc], [out] =>
+    match hexOpt doc with
+    | none => .bad "doc"
+    | some d =>
+      let m := Json.sortJSONBytes d
+      if isErr out then (if m.isNone then .ok else .diff "model sorts a document the implementation rejects")
+      else match hexOpt out with
+        | none => .bad "out"
+        | some o =>
+          if !Json.isCanonical o then .propfail sig s!"SortJSON output is not its own canonical form: {short out}"
+          else if m == some o then .ok else .diff s!"sortjson model={(m.map Bytes.render).getD "none"} impl={short out}"
+  | ["sortperm", d1, d2], [o1, o2] =>
+    if o1 != o2 then .propfail sig s!"same members in another order sort differently: {short d1} / {short d2}"
+    else match hexOpt d1, hexOpt d2, hexOpt o1 with
+      | some a, some b, some o =>
+        if Json.sortJSONBytes a != some o then .diff s!"sortperm model≠impl on {short d1}"
+        else if Json.sortJSONBytes b != some o then .diff s!"sortperm model≠impl on {short d2}"
+        else .ok
+      | _, _, _ => if isErr o1 then .diff "SortJSON rejected a generated document" else .bad "hex"
+  | ["signbytes", chain, entropy, fee, msg, memo], [s1, s2] =>
+    if isErr s1 || isErr s2 then .propfail "signbytes-failed" s!"StdSignBytes failed for msg {short msg}"
+    else if s1 != s2 then .propfail sig s!"sign bytes change with Go map order: {short s1} / {short s2}"
+    else match hexOpt chain, entropy.toInt?, hexOpt fee, hexOpt msg, hexOpt memo, hexOpt s1 with
+      | some c, some e, some f, some m, some mm, some s =>
+        if !Json.isCanonical s then .propfail sig s!"sign bytes are not in sorted canonical form: {short s1}"
+        else if !Json.isCanonical m then .propfail sig s!"message sign bytes are not in sorted canonical form: {short msg}"
+        else match Json.parse f, Json.parse m with
+          | some fj, some mj =>
+            let model := Json.signBytes c e fj mj mm
+            if model == s then .ok else .diff s!"signbytes model={Bytes.render model} impl={short s1}"
+          | _, _ => .bad "fee/msg json outside the modelled fragment"
+      | _, _, _, _, _, _ => .bad "signbytes fields"
+  | ["txsign", ty], [_s0, sp, sa] =>
+    if isErr sp then .propfail "signbytes-failed" s!"sign bytes of a decoded {ty} tx failed"
+    else if sa != "-" && sa != sp then
+      .propfail "signbytes-codec-dependent" s!"{ty}: sign bytes after amino and after proto decoding differ"
+    else .ok
+  | _, _ => .bad "sign op"
+
+/-- The real transaction decoder as the model sees it: framing, `ProtoStdTx`, `Any` resolution,
+then the `BigInt` texts. -/
+def modelTx (st : St) (b : Bytes) : Option (List Value × List Value) := do
+  let stdtx ← lookupSchema st "x.auth.ProtoStdTx"
+  let body ← unmarshalLP b
+  let vs ← decodeMsg stdtx body
+  let vs' ← BigText.canonFields stdtx vs
+  match vs with
+  | .msg (some [.bytes (some url), .bytes ob]) :: _ =>
+    let name ← st.urls.lookup url
+    let s ← lookupSchema st name
+    let inner ← decodeMsg s (ob.getD [])
+    let inner' ← BigText.canonFields s inner
+    some (vs', inner')
+  | _ => none
+
+/-- C16 (byte level): re-encodings of a signed transaction judged by the real decoder. -/
+def stepC16 (st : St) (pre post : List String) : Verdict :=
+  match pre, post with
+  | ["c16", cls, path, b0, b1], [acc, same, sign, sigok, hash] =>
+    match hexOpt b0, hexOpt b1 with
+    | some x0, some x1 =>
+      if acc = "P" then .propfail s!"decoder-panics-{cls}" s!"the transaction decoder panicked on {short b1}"
+      else
+        let m0 := modelTx st x0
+        let m1 := modelTx st x1
+        let mAcc := m1.isSome
+        let mSame := match m0, m1 with
+          | some (a, ai), some (b, bi) =>
+            -- the Any's value bytes are compared through their decoded content
+            (match a, b with
+             | _ :: ar, _ :: br => eqVals ar br
+             | _, _ => false) && eqVals ai bi &&
+            (match a, b with
+             | .msg (some (u1 :: _)) :: _, .msg (some (u2 :: _)) :: _ => Value.beq u1 u2
+             | _, _ => false)
+          | _, _ => false
+        let canon0 := match unmarshalLP x0 with
+          | some body => (match decodeMsg stdTxSchema body with
+                          | some v => encodeMsg stdTxSchema v == body && marshalLP body == x0
+                          | none => false)
+          | none => false
+        if m0.isNone then .diff s!"model rejects the canonical encoding {short b0}"
+        else if !canon0 then .diff s!"DefaultTxEncoder output is not Canonical in the model: {short b0}"
+        else if mAcc != (acc = "1") then .diff s!"{cls}@{path}: model accepts={mAcc} impl accepts={acc} on {short b1}"
+        else if acc = "1" && mSame != (same = "1") then .diff s!"{cls}@{path}: model same-content={mSame} impl={same} on {short b1}"
+        else if acc = "1" && same = "1" && sign = "1" && sigok = "1" && hash = "1" then
+          .propfail s!"reencode-replays-{cls}" s!"@{path}: other bytes, same signed content: {short b1}"
+        else .ok
+    | _, _ => .bad "hex"
+  | ["bigtext", t], [r] =>
+    match hexOpt t with
+    | none => .bad "hex"
+    | some tb =>
+      let m := match BigText.canonText tb with
+        | none => "ERR"
+        | some c => String.ofList (c.map fun b => Char.ofNat b.toNat)
+      -- an empty payload is ignored by BigInt.Unmarshal (the field keeps its previous value)
+      if tb = [] then (if r = "NOP" then .ok else .diff s!"bigtext empty: impl={r}")
+      else if m = r then .ok else .diff s!"bigtext {t}: model={m} impl={r}"
+  | _, _ => .bad "c16 op"
+
 def step (st : St) (pre post : List String) : St × Verdict :=
   match pre with
   | ["schema", name, spec] =>
     match Text.parseSchema spec with
     | none => (st, .bad s!"schema {name}")
     | some s =>
-      if wfSchema s then ({ st with reg := (name, s) :: st.reg }, .ok)
+      if name = "x.auth.ProtoStdTx" && !FSpec.beqList s stdTxSchema then
+        (st, .diff s!"message ProtoStdTx changed: the theorems of Props/C16wire are about {spec}'s predecessor (Wire.stdTxSchema)")
+      else if wfSchema s then ({ st with reg := (name, s) :: st.reg }, .ok)
       else (st, .diff s!"schema {name} is not well-formed (duplicate or out-of-range field numbers)")
   | "noschema" :: _ => (st, .ok)
   | "skip" :: _ => (st, .ok)
   | "rt" :: _ => (st, stepRt st pre post)
+  | "sortjson" :: _ => (st, stepSign pre post)
+  | "sortperm" :: _ => (st, stepSign pre post)
+  | "signbytes" :: _ => (st, stepSign pre post)
+  | "txsign" :: _ => (st, stepSign pre post)
+  | ["anyurl", url, name] =>
+    match hexOpt url with
+    | some u => ({ st with urls := (u, name) :: st.urls }, .ok)
+    | none => (st, .bad "anyurl")
+  | "c16" :: _ => (st, stepC16 st pre post)
+  | "bigtext" :: _ => (st, stepC16 st pre post)
   | _ => (st, .bad "op")
 
 def main : IO Unit := Proto.run ({} : St) step
